@@ -12,6 +12,7 @@
 -/
 import YashModel.Input.Steps
 import YashModel.Input.Utf8
+import YashModel.Input.ChunkLemmas
 namespace YashModel.Input
 
 /-- ★ `next_line`: the line and the rest are the input; the line has no newline except possibly as
@@ -116,6 +117,49 @@ theorem read_chunking_irrelevant (raw : Bool) (cs ds : List (List Byte)) :
     rw [h1'] at this
     rw [nextLine_eq, this]
     exact ⟨rfl, rfl⟩
+
+/-- ★ chunking-independence of a *whole run*.  `runC chunks` is the shell fed through standard input
+    by a source that delivers the script in the given chunks; every access to the descriptor (the
+    lexer's `next_line`, `read`'s `read_char`, `cat`) is a loop of one-byte reads over the chunk list.
+    Its run is the flat run over the concatenation: same final state (standard output, verbose echo,
+    exit status, variables, aliases, options, descriptor offset, bytes left), same outcome, and the same
+    sequence of command-line texts pulled by the iterations of the read-eval loop.  Hence two
+    chunkings of the same byte stream execute the same command sequence with the same results. -/
+theorem run_chunking_irrelevant (cs ds : List (List Byte)) :
+    ((runC cs).1.flat = (run true cs.flatten []).1
+      ∧ (runC cs).2.1 = (run true cs.flatten []).2.1
+      ∧ (runC cs).2.2 = (run true cs.flatten []).2.2.map (·.text))
+    ∧ (cs.flatten = ds.flatten →
+        (runC cs).1.flat = (runC ds).1.flat ∧ (runC cs).2.1 = (runC ds).2.1
+        ∧ (runC cs).2.2 = (runC ds).2.2) := by
+  have key : ∀ xs : List (List Byte),
+      (runC xs).1.flat = (run true xs.flatten []).1
+      ∧ (runC xs).2.1 = (run true xs.flatten []).2.1
+      ∧ (runC xs).2.2 = (run true xs.flatten []).2.2.map (·.text) := fun xs =>
+    loopC_flat (xs.flatten.length + 2) { st := initState true [] [], src := xs } [] [] rfl
+  refine ⟨key cs, fun h => ?_⟩
+  obtain ⟨a1, a2, a3⟩ := key cs
+  obtain ⟨b1, b2, b3⟩ := key ds
+  rw [h] at a1 a2 a3
+  exact ⟨a1.trans b1.symm, a2.trans b2.symm, a3.trans b3.symm⟩
+
+/-- what the property talks about, read off the previous theorem: trace, exit status and verbose echo
+    do not depend on the chunking -/
+theorem run_chunking_observables (cs ds : List (List Byte)) (h : cs.flatten = ds.flatten) :
+    (runC cs).1.st.out = (runC ds).1.st.out ∧ (runC cs).1.st.status = (runC ds).1.st.status
+    ∧ (runC cs).1.st.echo = (runC ds).1.st.echo ∧ (runC cs).1.st.pos = (runC ds).1.st.pos
+    ∧ (runC cs).1.st.vars = (runC ds).1.st.vars ∧ (runC cs).1.st.aliases = (runC ds).1.st.aliases := by
+  have e := ((run_chunking_irrelevant cs ds).2 h).1
+  have o : (runC cs).1.flat.out = (runC ds).1.flat.out := by rw [e]
+  have st : (runC cs).1.flat.status = (runC ds).1.flat.status := by rw [e]
+  have ec : (runC cs).1.flat.echo = (runC ds).1.flat.echo := by rw [e]
+  have po : (runC cs).1.flat.pos = (runC ds).1.flat.pos := by rw [e]
+  have va : (runC cs).1.flat.vars = (runC ds).1.flat.vars := by rw [e]
+  have al : (runC cs).1.flat.aliases = (runC ds).1.flat.aliases := by rw [e]
+  exact ⟨o, st, ec, po, va, al⟩
+
+example : [[112, 114], [111, 98, 101, 32], [], [97, 10]].flatten = [[112], [114, 111, 98, 101, 32, 97, 10]].flatten := by
+  decide
 
 /-- ★ (one command line) What the lexer pulled for one `Parser::command_line` is exactly the first
     `k` lines of the input — nothing of line `k+1` — and every shorter non-empty prefix of lines made
